@@ -28,6 +28,8 @@ def step (s : State) (op : List String) : List (State × List Ev) :=
     [({ s with pipes := ps }, (retErr (natOf call) "ok" :: sortByKey evs))]
   | ["recv", call, _] => [(s, [retErr (natOf call) "protoop"])]
   | ["setopt", _, "WRITEQ-LEN", n] => [({ s with sendQLen := natOf n }, [Ev.res "ok"])]
+  -- XSURVEYOR: the receive queue length is another matter (it never changes what a respondent's send queue holds)
+  | ["setopt", _, "READQ-LEN", _] => [(s, [Ev.res "ok"])]
   | ["hold", p, v] => [({ s with pipes := modifyPipe s.pipes (natOf p) (fun x => { x with hold := v == "1" }) }, [])]
   | ["release", p, "ok"] =>
     match findPipe s.pipes (natOf p) with
